@@ -225,8 +225,8 @@ func combineMembers(c *Case, st *Stats) ([]strategy.Action, bool) {
 				}
 			case held && entity == "decorator.StopLoss":
 				stop := price * (1 - pct)
-				if cl != cl || stop != stop {
-					return out, true
+				if cl != cl || stop != stop || stop == 0 {
+					return out, true // a stop price of exactly 0 (a percentage of 100 %) is the library's marker for "nothing held"
 				}
 				if a == strategy.Sell || cl <= stop {
 					held, act = false, strategy.Sell
